@@ -304,6 +304,264 @@ fn gen_orderpad_query(r: &mut Rng, t0: &Tbl, t1: &Tbl) -> Query {
     Query { shape, sql: sql.clone(), lite: sql, logical, ordered: false, limit: None, scalar_sub: false, order_keys: Some(vec![0]) }
 }
 
+/// Combinations of clauses on ONE select that `gen_query` never puts together: DISTINCT with GROUP BY
+/// (select list a strict subset / a permutation / a superset of the keys, items repeated), DISTINCT over
+/// aggregates, HAVING on an unselected key or aggregate, GROUP BY expressions, DISTINCT + ORDER BY + LIMIT.
+/// Keys have few distinct values, NULLs and duplicates, so groups that agree on a PART of the key are common.
+/// Logical plan: DISTINCT after GROUP BY is `dedup ∘ project ∘ (having) ∘ group`.
+fn gen_clausemix_query(r: &mut Rng, t0: &Tbl, t1: &Tbl) -> Query {
+    let cols0: Vec<Col> = t0.cols.iter().enumerate().map(|(i, c)| Col { sql: c.0.into(), plan: format!("$0.{i}"), ty: c.1 }).collect();
+    let cols1: Vec<Col> = t1.cols.iter().enumerate().map(|(i, c)| Col { sql: c.0.into(), plan: format!("$1.{i}"), ty: c.1 }).collect();
+    let mut shape = String::from("clause-mix");
+    let (from_sql, from_plan, cols): (String, String, Vec<Col>) = match r.below(5) {
+        0 => {
+            shape += " join:inner";
+            let mut c = cols0.clone();
+            c.extend(cols1.iter().cloned());
+            (format!("{} JOIN {} ON a = x", t0.name, t1.name), format!("(join inner (= $0.0 $1.0) {} {})", scan_plan(0, cols0.len()), scan_plan(1, cols1.len())), c)
+        }
+        1 => {
+            shape += " join:left_outer";
+            let mut c = cols0.clone();
+            c.extend(cols1.iter().cloned());
+            (format!("{} LEFT JOIN {} ON a = x", t0.name, t1.name), format!("(join left_outer (= $0.0 $1.0) {} {})", scan_plan(0, cols0.len()), scan_plan(1, cols1.len())), c)
+        }
+        _ => {
+            shape += " single";
+            (t0.name.to_string(), scan_plan(0, cols0.len()), cols0.clone())
+        }
+    };
+    let ints: Vec<Col> = cols.iter().filter(|c| matches!(c.ty, Ty::I32 | Ty::I64)).cloned().collect();
+    let keyable: Vec<Col> = cols.iter().filter(|c| c.ty != Ty::Bool).cloned().collect();
+    let ob_tail = |r: &mut Rng, out_n: usize, sql: &mut String, plan: &mut String, shape: &mut String, p_order: (u64, u64)| -> (bool, Option<(i64, i64)>) {
+        let mut ordered = false;
+        let mut limit = None;
+        if r.chance(p_order.0, p_order.1) {
+            ordered = true;
+            let descs: Vec<bool> = (0..out_n).map(|_| r.chance(1, 3)).collect();
+            let ob: Vec<String> = (0..out_n).map(|i| format!("o{i}{}", if descs[i] { " DESC" } else { "" })).collect();
+            let keys: Vec<String> = (0..out_n).map(|i| if descs[i] { format!("(desc #{i})") } else { format!("#{i}") }).collect();
+            *sql += &format!(" ORDER BY {}", ob.join(", "));
+            *plan = format!("(order {} {plan})", list(&keys));
+            *shape += " order-by";
+            if r.chance(2, 3) {
+                let n = r.range(0, 4);
+                let off = r.range(0, 2);
+                *sql += &format!(" LIMIT {n} OFFSET {off}");
+                *plan = format!("(limit {n} {off} {plan})");
+                *shape += " limit";
+            }
+        } else if r.chance(1, 6) {
+            let n = *r.pick(&[0i64, 1, 2, 3, 5, 20]);
+            let off = *r.pick(&[0i64, 0, 1, 2]);
+            limit = Some((n, off));
+            *shape += " limit-unordered";
+        }
+        (ordered, limit)
+    };
+
+    if r.chance(1, 6) {
+        // DISTINCT + ORDER BY + LIMIT without GROUP BY
+        let k = r.range(1, 3) as usize;
+        let picked: Vec<Col> = (0..k).map(|_| r.pick(&cols).clone()).collect();
+        let names: Vec<String> = picked.iter().enumerate().map(|(i, c)| format!("{} AS o{i}", c.sql)).collect();
+        let refs: Vec<String> = picked.iter().map(|c| c.plan.clone()).collect();
+        let mut uniq: Vec<String> = vec![];
+        for x in &refs {
+            if !uniq.contains(x) {
+                uniq.push(x.clone());
+            }
+        }
+        if uniq.len() < refs.len() {
+            shape += " items-repeated";
+        }
+        let mut plan = format!("(proj {} (hashagg {} list {from_plan}))", list(&refs), list(&uniq));
+        let mut sql = format!("SELECT DISTINCT {} FROM {from_sql}", names.join(", "));
+        shape += " distinct";
+        let (ordered, limit) = ob_tail(r, k, &mut sql, &mut plan, &mut shape, (5, 6));
+        let lite = sql.clone();
+        if let Some((n, off)) = limit {
+            sql += &format!(" LIMIT {n} OFFSET {off}");
+        }
+        return Query { shape, sql, lite, logical: plan, ordered, limit, scalar_sub: false, order_keys: None };
+    }
+
+    // GROUP BY keys: 1..3 distinct items, columns or expressions
+    let nk = *r.pick(&[1usize, 2, 2, 2, 3]);
+    let mut keys: Vec<Col> = vec![];
+    while keys.len() < nk {
+        let c = if r.chance(1, 4) {
+            let x = r.pick(&ints).clone();
+            if r.chance(1, 2) {
+                let v = r.range(1, 2);
+                Col { sql: format!("{} + {v}", x.sql), plan: format!("(+ {} {v})", x.plan), ty: x.ty }
+            } else {
+                let y = r.pick(&ints).clone();
+                if y.plan == x.plan {
+                    continue;
+                }
+                Col { sql: format!("{} + {}", x.sql, y.sql), plan: format!("(+ {} {})", x.plan, y.plan), ty: Ty::I64 }
+            }
+        } else {
+            r.pick(&keyable).clone()
+        };
+        if !keys.iter().any(|k| k.plan == c.plan) {
+            keys.push(c);
+        }
+    }
+    if keys.iter().any(|k| k.plan.starts_with('(')) {
+        shape += " key-expr";
+    }
+    let gen_agg = |r: &mut Rng| -> (String, String) {
+        let c = r.pick(&ints).clone();
+        match r.below(6) {
+            0 | 1 => ("count(*)".to_string(), "rowcount".to_string()),
+            2 => (format!("count({})", c.sql), format!("(count {})", c.plan)),
+            3 => (format!("sum({})", c.sql), format!("(sum {})", c.plan)),
+            4 => (format!("max({})", c.sql), format!("(max {})", c.plan)),
+            _ => (format!("min({})", c.sql), format!("(min {})", c.plan)),
+        }
+    };
+    // select list: (sql, plan) items
+    let mode = r.below(10);
+    let mut items: Vec<(String, String)> = vec![];
+    let mut aggs: Vec<(String, String)> = vec![];
+    let mut perm: Vec<usize> = (0..nk).collect();
+    for i in (1..perm.len()).rev() {
+        let j = r.below(i as u64 + 1) as usize;
+        perm.swap(i, j);
+    }
+    let mut selected_keys: Vec<usize> = vec![];
+    let mname;
+    match mode {
+        0..=3 if nk >= 2 => {
+            // strict subset of the keys
+            let take = r.range(1, nk as i64 - 1) as usize;
+            selected_keys = perm[..take].to_vec();
+            mname = "subset-of-keys";
+        }
+        4 => {
+            selected_keys = perm.clone();
+            mname = "permutation-of-keys";
+        }
+        5 | 6 => {
+            selected_keys = perm.clone();
+            let na = r.range(1, 2);
+            for _ in 0..na {
+                let a = gen_agg(r);
+                if !aggs.iter().any(|x| x.1 == a.1) {
+                    aggs.push(a);
+                }
+            }
+            mname = "superset-of-keys";
+        }
+        7 | 8 => {
+            // aggregates only (no key selected): DISTINCT over aggregates
+            let na = r.range(1, 2);
+            for _ in 0..na {
+                let a = gen_agg(r);
+                if !aggs.iter().any(|x| x.1 == a.1) {
+                    aggs.push(a);
+                }
+            }
+            mname = "aggregates-only";
+        }
+        _ => {
+            // a part of the keys plus maybe an aggregate
+            let take = r.range(1, nk as i64) as usize;
+            selected_keys = perm[..take].to_vec();
+            if r.chance(1, 2) {
+                aggs.push(gen_agg(r));
+            }
+            mname = "part-of-keys";
+        }
+    }
+    shape += &format!(" group-by/{nk} {mname}");
+    for &i in &selected_keys {
+        items.push((keys[i].sql.clone(), keys[i].plan.clone()));
+    }
+    for a in &aggs {
+        items.push(a.clone());
+    }
+    // select items repeated
+    if r.chance(1, 5) {
+        let it = r.pick(&items).clone();
+        let pos = r.below(items.len() as u64 + 1) as usize;
+        items.insert(pos, it);
+        shape += " items-repeated";
+    }
+    let distinct = match mname {
+        "subset-of-keys" | "aggregates-only" => r.chance(4, 5),
+        _ => r.chance(1, 2),
+    };
+    // HAVING: on a key that is not selected, else on an aggregate that is not selected
+    let mut having: Option<(String, String)> = None; // (sql, plan)
+    let mut inner_aggs: Vec<String> = aggs.iter().map(|a| a.1.clone()).collect();
+    if r.chance(2, 5) {
+        let unsel: Vec<usize> = (0..nk).filter(|i| !selected_keys.contains(i)).collect();
+        if !unsel.is_empty() && r.chance(3, 4) {
+            let k = &keys[*r.pick(&unsel)];
+            having = Some(match k.ty {
+                Ty::I32 | Ty::I64 if r.chance(3, 4) => {
+                    let v = r.range(0, 3);
+                    let op = *r.pick(&[">=", "<", "<>", "="]);
+                    (format!("{} {op} {v}", k.sql), format!("({op} {} {v})", k.plan))
+                }
+                _ => {
+                    if r.chance(1, 2) {
+                        (format!("{} IS NOT NULL", k.sql), format!("(not (isnull {}))", k.plan))
+                    } else {
+                        (format!("{} IS NULL", k.sql), format!("(isnull {})", k.plan))
+                    }
+                }
+            });
+            shape += " having-unselected-key";
+        } else {
+            let mut a = gen_agg(r);
+            if a.0.starts_with("max") || a.0.starts_with("min") {
+                a = ("count(*)".to_string(), "rowcount".to_string());
+            }
+            let v = r.range(0, 2);
+            if !inner_aggs.contains(&a.1) {
+                inner_aggs.push(a.1.clone());
+                shape += " having-unselected-agg";
+            } else {
+                shape += " having";
+            }
+            having = Some((format!("{} > {v}", a.0), format!("(> {} {v})", a.1)));
+        }
+    }
+    let key_refs: Vec<String> = keys.iter().map(|c| c.plan.clone()).collect();
+    let mut plan = format!("(hashagg {} {} {from_plan})", list(&key_refs), list(&inner_aggs));
+    let mut tail = format!(" GROUP BY {}", keys.iter().map(|c| c.sql.clone()).collect::<Vec<_>>().join(", "));
+    if let Some((hs, hp)) = &having {
+        tail += &format!(" HAVING {hs}");
+        plan = format!("(filter {hp} {plan})");
+    }
+    let refs: Vec<String> = items.iter().map(|x| x.1.clone()).collect();
+    if distinct {
+        let mut uniq: Vec<String> = vec![];
+        for x in &refs {
+            if !uniq.contains(x) {
+                uniq.push(x.clone());
+            }
+        }
+        plan = format!("(proj {} (hashagg {} list (proj {} {plan})))", list(&refs), list(&uniq), list(&uniq));
+        shape += " distinct";
+    } else {
+        plan = format!("(proj {} {plan})", list(&refs));
+    }
+    let names: Vec<String> = items.iter().enumerate().map(|(i, x)| format!("{} AS o{i}", x.0)).collect();
+    let mut sql = format!("SELECT {}{} FROM {from_sql}{tail}", if distinct { "DISTINCT " } else { "" }, names.join(", "));
+    let out_n = items.len();
+    let (ordered, limit) = ob_tail(r, out_n, &mut sql, &mut plan, &mut shape, (2, 5));
+    let lite = sql.clone();
+    if let Some((n, off)) = limit {
+        sql += &format!(" LIMIT {n} OFFSET {off}");
+    }
+    Query { shape, sql, lite, logical: plan, ordered, limit, scalar_sub: false, order_keys: None }
+}
+
 fn scan_plan(t: usize, ncols: usize) -> String {
     let cols: Vec<String> = (0..ncols).map(|c| format!("${t}.{c}")).collect();
     format!("(scan ${t} (list {}) true)", cols.join(" "))
@@ -747,7 +1005,16 @@ fn gen(n: usize, out: &str) {
         } else {
             gen_table(&mut r, "t1", vec![("x", Ty::I32, true), ("y", Ty::I64, true), ("z", Ty::I32, false), ("w", Ty::Str, true)], l1)
         };
-        let q = if force_orderpad { gen_orderpad_query(&mut r, &t0, &t1) } else { gen_query(&mut r, &t0, &t1, force_scalar) };
+        // 16 % of the triples: clause combinations on one select (DISTINCT with GROUP BY, HAVING on an
+        // unselected key, GROUP BY expressions, DISTINCT + ORDER BY + LIMIT, repeated items)
+        let force_mix = !force_scalar && !force_orderpad && r.chance(16, 100);
+        let q = if force_orderpad {
+            gen_orderpad_query(&mut r, &t0, &t1)
+        } else if force_mix {
+            gen_clausemix_query(&mut r, &t0, &t1)
+        } else {
+            gen_query(&mut r, &t0, &t1, force_scalar)
+        };
         let tj = |t: &Tbl| json!({"name": t.name, "pk": t.pk, "cols": t.cols.iter().enumerate().map(|(j, c)| json!([c.0, c.1.tag(), if t.pk == Some(j) { format!("{} primary key", c.1.sql()) } else { c.1.sql().to_string() }])).collect::<Vec<_>>(), "chunks": t.chunks});
         let v = json!({"id": id, "shape": q.shape, "tables": [tj(&t0), tj(&t1)], "sql": q.sql, "sqlite": q.lite, "logical": q.logical, "ordered": q.ordered,
             "limit": q.limit.map(|l| json!([l.0, l.1])), "disk": if force_orderpad { r.chance(4, 5) } else { r.chance(2, 5) }, "scalar_sub": q.scalar_sub,
